@@ -215,11 +215,11 @@ def findlinestarts(code, dup_lines=False, signed_line_deltas=True):
                         yield offset, lineno
                         lastlineno = lineno
                         pass
+                    offset += byte_incr
                     if offset >= bytecode_len:
                         # The rest of the ``lnotab byte offsets are past the end of
                         # the bytecode; any line numbers for these have been removed.
                         return
-                    offset += byte_incr
                     pass
                 if signed_line_deltas and line_delta >= 0x80:
                     # Since 3.6, line_deltas is an array of 8-bit *signed* integers
